@@ -4,3 +4,4 @@ pub mod auth;
 pub mod tokens;
 pub mod reset;
 pub mod refs;
+pub mod schemaw;
